@@ -1,5 +1,453 @@
-//! C20: independent encoder feeding the receiver, adversarial frames. (stub)
+//! C20: (5) the independent IPHC/NHC encoder + fragmenter feed a receiving interface
+//! in every legal mode; (adversarial) crafted FRAG1/FRAGN/IPHC/NHC frames.
+
+use super::dgram::*;
+use super::lowpan::*;
+use super::world::*;
+use smoltcp::wire::SixlowpanAddressContext;
+use vkit::indep::*;
 use vkit::runner::Fail;
+use vkit::sim::ms;
 use vkit::{Ctx, Src};
-pub fn enc_case(_src: &mut Src, _ctx: &mut Ctx) -> Result<(), Fail> { Ok(()) }
-pub fn adv_case(_src: &mut Src, _ctx: &mut Ctx) -> Result<(), Fail> { Ok(()) }
+
+struct Crafted {
+    cfg: Cfg,
+    w: World,
+    socks: Socks,
+    ctxs: Ctxs,
+    x_ll: Ll,
+    mac_dst: Ll,
+    pan: u16,
+    dgram: Vec<u8>,
+    pkt: Ip6,
+    mode: EncMode,
+    comp: Vec<u8>,
+    comp_hdr: usize,
+    unc_hdr: usize,
+    /// LOWPAN payloads (one unfragmented, or FRAG1 + FRAGN...)
+    payloads: Vec<Vec<u8>>,
+    /// (first, offset, len) of each payload in uncompressed space
+    ranges: Vec<(bool, usize, usize)>,
+    src_class: &'static str,
+}
+
+const OTHER_PREFIX: [u8; 8] = [0x20, 0x01, 0x0d, 0xb8, 0xaa, 0xaa, 0xbb, 0xbb];
+
+fn craft(src: &mut Src, ctx: &mut Ctx, max_payload: usize) -> Crafted {
+    let mut cl = draw_classes(src);
+    if cl.pan.is_none() && src.bool() {
+        cl.pan = Some(0x4321);
+    }
+    let cfg = make_cfg(&cl);
+    let mut w = World::new(&cfg, true, 1280);
+    let b = &cfg.n[1];
+    let spec = SockSpec { udp_ports: vec![draw_port(src), 0x1234], icmp_ident: Some(src.u16()) };
+    let spec = if spec.udp_ports[0] == 0x1234 { SockSpec { udp_ports: vec![0x1235, 0x1234], ..spec } } else { spec };
+    let socks = make_socks(&mut w.s[1].node, &spec);
+    // contexts known to the receiver (and to the encoder): index 0 = the receiver's global prefix
+    let nctx = src.weighted(&[2, 2, 2]);
+    let mut ctxs = Ctxs::default();
+    let prefixes = [G_PREFIXES[cl.prefix as usize], OTHER_PREFIX];
+    for i in 0..nctx {
+        ctxs.0[i] = Some(prefixes[i]);
+        w.s[1].node.iface.sixlowpan_address_context_mut().push(SixlowpanAddressContext(prefixes[i])).expect("context table");
+    }
+    ctx.label(&format!("enc:contexts-{}", nctx));
+    // phantom sender X
+    let xs = src.u64();
+    let (_, x_ll) = make_hw(src.weighted(&[2, 1]) as u64, xs, cl.pan);
+    let sclass = src.draw(7);
+    let r = mixh(xs, 9).to_be_bytes();
+    let iid = |k: u64| -> [u8; 8] {
+        match k {
+            0 => x_ll.iid().unwrap(),
+            1 => [0, 0, 0, 0xff, 0xfe, 0, r[0], r[1] | 1],
+            _ => {
+                let mut v = r;
+                v[7] |= 1;
+                v
+            }
+        }
+    };
+    let (sprefix, siid, src_class): ([u8; 8], [u8; 8], &'static str) = match sclass {
+        0 => ([0xfe, 0x80, 0, 0, 0, 0, 0, 0], iid(0), "enc-src:ll-derived"),
+        1 => ([0xfe, 0x80, 0, 0, 0, 0, 0, 0], iid(1), "enc-src:ll-16bit"),
+        2 => ([0xfe, 0x80, 0, 0, 0, 0, 0, 0], iid(2), "enc-src:ll-other"),
+        3 => (prefixes[0], iid(0), "enc-src:ctx0-derived"),
+        4 => (prefixes[0], iid(1), "enc-src:ctx0-16bit"),
+        5 => (prefixes[0], iid(2), "enc-src:ctx0-other"),
+        6 => (prefixes[1], iid(src.draw(2)), "enc-src:ctx1-prefix"),
+        _ => ([0x20, 0x01, 0x0d, 0xb8, 0xff, 0xff, 0, 9], iid(src.draw(2)), "enc-src:uncovered-global"),
+    };
+    let mut sa = [0u8; 16];
+    sa[..8].copy_from_slice(&sprefix);
+    sa[8..].copy_from_slice(&siid);
+    let dclass = src.weighted(&[3, 3, 2, 1]);
+    let da = match dclass {
+        0 => b.addrs[0],
+        1 => b.addrs[1],
+        2 => dst_addr(2, &cfg, 1),
+        _ => solicited_node(&b.addrs[0]),
+    };
+    let mac_dst = if da[0] == 0xff && src.chance(2, 3) { Ll::Short([0xff, 0xff]) } else { b.ll };
+    let proto = if src.chance(1, 4) { PROTO_ICMPV6 } else { PROTO_UDP };
+    let len = match src.weighted(&[3, 3, 2]) {
+        0 => src.usize(0, 60),
+        1 => src.usize(40, 300.min(max_payload)),
+        _ => src.usize(0, max_payload),
+    };
+    let payload = make_payload(src.u64(), len);
+    let sport = draw_port(src).max(1);
+    let (s, d) = (Ip::V6(sa), Ip::V6(da));
+    let l4 = if proto == PROTO_UDP { Udp::new(sport, spec.udp_ports[0], payload).encode(&s, &d) } else { Icmp::echo(true, true, spec.icmp_ident.unwrap(), src.u16(), payload).encode6(&s, &d) };
+    let mut pkt = Ip6::new(sa, da, proto, l4);
+    pkt.hop = draw_hop(src);
+    if src.chance(1, 3) {
+        pkt.tc = match src.weighted(&[1, 1, 1]) {
+            0 => src.draw(3) as u8,        // ECN only
+            1 => (src.draw(63) as u8) << 2, // DSCP only
+            _ => src.u8(),
+        };
+    }
+    if src.chance(1, 3) {
+        pkt.flow = src.draw(0xfffff) as u32;
+    }
+    let dgram = pkt.encode();
+    // a legal mode in every dimension
+    let tf = *src.pick(&legal_tf(pkt.tc, pkt.flow));
+    let (sac, sam, sci) = *src.pick(&legal_unicast_modes(&sa, x_ll, &ctxs));
+    let (dac, dam, dci) = if da[0] == 0xff { (false, *src.pick(&legal_multicast_modes(&da)), 0) } else { *src.pick(&legal_unicast_modes(&da, mac_dst, &ctxs)) };
+    let udp_nhc = proto == PROTO_UDP && src.chance(3, 4);
+    let udp_p = if proto == PROTO_UDP { *src.pick(&legal_udp_p(sport, spec.udp_ports[0])) } else { 0 };
+    let mode = EncMode { tf, hlim_inline: src.chance(1, 3), sac, sam, sci, dac, dam, dci, force_cid: if (sac && sam != 0) || dac { src.chance(4, 5) } else { src.chance(1, 6) }, udp_nhc, udp_p, udp_c: false };
+    let (hdr, unc_hdr) = compress(&dgram, x_ll, mac_dst, &ctxs, &mode);
+    let comp_hdr = hdr.len();
+    let mut comp = hdr;
+    comp.extend_from_slice(&dgram[unc_hdr..]);
+    let pan = cl.pan.unwrap_or(0xbeef);
+    let mac_len = Mac::data(0, pan, mac_dst, x_ll).encode().len();
+    let room = 127 - mac_len;
+    let (payloads, ranges) = if comp.len() <= room && src.chance(7, 8) || dgram.len() < unc_hdr + 16 {
+        (vec![comp.clone()], vec![(true, 0, dgram.len())])
+    } else {
+        // first fragment: all compressed headers plus k*8 - unc_hdr payload octets
+        let max_first_unc = ((room - 4 - comp_hdr) + unc_hdr) / 8 * 8;
+        let min_first_unc = unc_hdr.div_ceil(8) * 8;
+        let first_unc = (min_first_unc + 8 * src.draw(((max_first_unc - min_first_unc) / 8) as u64) as usize).min((dgram.len() - 1) / 8 * 8).max(min_first_unc);
+        let max_next = (room - 5) / 8 * 8;
+        let next = 8 * (1 + src.draw((max_next / 8 - 1) as u64) as usize);
+        // keep the number of fragments moderate
+        let next = if (dgram.len() - first_unc) / next > 40 { max_next } else { next };
+        let p = fragment(&comp, comp_hdr, unc_hdr, src.u16(), first_unc, next);
+        let mut r = vec![(true, 0usize, first_unc)];
+        let mut off = first_unc;
+        for f in p.iter().skip(1) {
+            r.push((false, off, f.len() - 5));
+            off += f.len() - 5;
+        }
+        (p, r)
+    };
+    // the decoder must agree with the encoder (keeps the two independent halves honest)
+    {
+        let first = match decode_dispatch(&payloads[0]).expect("own frame") {
+            Lp::Iphc(p) => decompress(p, x_ll, mac_dst, &ctxs).expect("own IPHC").build(None),
+            Lp::Frag1 { size, rest, .. } => {
+                let mut b = decompress(rest, x_ll, mac_dst, &ctxs).expect("own IPHC").build(Some(size));
+                for f in payloads.iter().skip(1) {
+                    if let Lp::FragN { rest, offset, .. } = decode_dispatch(f).unwrap() {
+                        assert_eq!(offset, b.len());
+                        b.extend_from_slice(rest);
+                    }
+                }
+                b
+            }
+            _ => unreachable!(),
+        };
+        assert_eq!(first, dgram, "independent encoder and decoder disagree for mode {:?}", mode);
+    }
+    ctx.note(|| format!("receiver {} pan {:#06x}; phantom sender ll={} ; datagram {} -> {} proto {} hop {} tc {:#04x} flow {:#x} length {}; mode {:?}; {} LOWPAN payload(s) {:?}", describe_cfg(&cfg), pan, x_ll, a2s(&sa), a2s(&da), proto, pkt.hop, pkt.tc, pkt.flow, dgram.len(), mode, payloads.len(), payloads.iter().map(|p| p.len()).collect::<Vec<_>>()));
+    Crafted { cfg, w, socks, ctxs, x_ll, mac_dst, pan, dgram, pkt, mode, comp, comp_hdr, unc_hdr, payloads, ranges, src_class }
+}
+
+fn frame(c: &Crafted, seq: u8, payload: &[u8]) -> Vec<u8> {
+    let mut f = Mac::data(seq, c.pan, c.mac_dst, c.x_ll).encode();
+    f.extend_from_slice(payload);
+    f
+}
+
+/// Failure key: the two known ways stateful (context-based) address modes go wrong get their own keys.
+fn stateful_key(c: &Crafted, generic: &str) -> String {
+    let m = &c.mode;
+    let multicast = c.pkt.dst[0] == 0xff;
+    let stateful = (m.sac && m.sam != 0) || (m.dac && !multicast);
+    let cid_octet = m.force_cid || (m.sac && m.sam != 0 && m.sci != 0) || (!multicast && m.dac && m.dci != 0);
+    if stateful && !cid_octet {
+        "ingress:iphc-stateful-address-with-default-context-0-rejected-when-cid-octet-absent".into()
+    } else if (m.sac && m.sam == 2) || (m.dac && !multicast && m.dam == 2) {
+        "ingress:iphc-stateful-16bit-address-decompressed-without-00ff-fe00-mapping".into()
+    } else {
+        generic.into()
+    }
+}
+
+pub fn enc_case(src: &mut Src, ctx: &mut Ctx) -> Result<(), Fail> {
+    let mut c = craft(src, ctx, 1200);
+    let variant = src.weighted(&[6, 2, 1]);
+    // variant 1: flip a payload bit after the checksum was computed (UDP, checksum in-line)
+    // variant 2: elide the UDP checksum (C=1); the decompressor must recompute it
+    let mut expect = true;
+    if variant == 1 && c.pkt.proto == PROTO_UDP && c.dgram.len() > 48 {
+        let last = c.payloads.len() - 1;
+        let n = c.payloads[last].len();
+        c.payloads[last][n - 1] ^= 0x01;
+        expect = false;
+        ctx.label("enc:udp-payload-corrupted");
+    } else if variant == 2 && c.mode.udp_nhc {
+        let mut m = c.mode;
+        m.udp_c = true;
+        let (hdr, unc) = compress(&c.dgram, c.x_ll, c.mac_dst, &c.ctxs, &m);
+        if c.payloads.len() == 1 {
+            let mut p = hdr;
+            p.extend_from_slice(&c.dgram[unc..]);
+            c.payloads = vec![p];
+            ctx.label("enc:udp-checksum-elided");
+        }
+    }
+    let n = c.payloads.len();
+    // arrival order: within what the reassembler can track
+    let mut order: Vec<usize> = (0..n).collect();
+    if n > 1 {
+        match src.weighted(&[3, 1, 2]) {
+            0 => {}
+            1 => order.reverse(),
+            _ => {
+                for i in 0..n - 1 {
+                    let j = i + src.draw((n - 1 - i) as u64) as usize;
+                    order.swap(i, j);
+                }
+            }
+        }
+    }
+    let mut model = RefReasm::new(smoltcp::config::REASSEMBLY_BUFFER_COUNT, smoltcp::config::ASSEMBLER_MAX_SEGMENT_COUNT, 60_000);
+    let key: FragKey = (c.x_ll, c.mac_dst, c.dgram.len(), 0);
+    let mut complete = n == 1;
+    let one_by_one = src.bool();
+    let mut now = 0i64;
+    for (k, i) in order.iter().enumerate() {
+        let f = frame(&c, k as u8, &c.payloads[*i]);
+        assert!(f.len() <= 127);
+        if n > 1 {
+            let (first, off, len) = c.ranges[*i];
+            if model.fragment(now, key, first, off, len) {
+                complete = true;
+            }
+        }
+        c.w.s[1].node.inject(f);
+        if one_by_one {
+            c.w.s[1].node.poll(ms(now), None);
+            now += 1;
+        }
+    }
+    c.w.s[1].node.poll(ms(now), None);
+    let evs = read_events(&mut c.w.s[1].node, &c.socks);
+    let want = event_for(&c.pkt, &c.socks).expect("datagram addressed to a bound socket");
+    let m = &c.mode;
+    let mode_label = format!("enc:tf{}-hl{}-s{}{}-d{}{}{}", m.tf, if m.hlim_inline { "i" } else { "c" }, if m.sac { "c" } else { "" }, m.sam, if c.pkt.dst[0] == 0xff { "m" } else if m.dac { "c" } else { "" }, m.dam, if c.pkt.proto == PROTO_UDP { if m.udp_nhc { format!("-nhc{}", m.udp_p) } else { "-udp-inline".into() } } else { "-icmp".into() });
+    ctx.label(&mode_label);
+    ctx.label(c.src_class);
+    ctx.label(frag_bucket(n));
+    ctx.digest.str(&mode_label);
+    ctx.digest.str(c.src_class);
+    ctx.digest.u64(c.dgram.len() as u64);
+    ctx.digest.u64(n as u64);
+    if !expect {
+        if let Some(e) = evs.first() {
+            return Err(Fail::new(
+                "ingress:udp-nhc-checksum-not-verified",
+                format!("a LOWPAN_NHC-compressed UDP datagram whose payload was altered after its (in-line) checksum was computed was delivered: {}; the decompressor rebuilds the UDP header with checksum 0 instead of the transmitted checksum, so the datagram that reaches UDP is not the one that was sent and is never verified (mode {:?})", e.brief(), c.mode),
+            ));
+        }
+        ctx.nontrivial = true;
+        return Ok(());
+    }
+    if !complete {
+        ctx.label("enc:order-beyond-assembler-limit");
+        for e in &evs {
+            if *e != want {
+                return Err(Fail::new("ingress:delivered-data-matches-no-datagram-sent", format!("{} but the datagram sent would give {}", e.brief(), want.brief())));
+            }
+        }
+        return Ok(());
+    }
+    match evs.len() {
+        1 if evs[0] == want => {
+            ctx.nontrivial = true;
+            Ok(())
+        }
+        0 => Err(Fail::new(
+            stateful_key(&c, "ingress:independently-compressed-datagram-not-delivered"),
+            format!("datagram {} -> {} proto {} length {} compressed by the independent encoder in legal mode {:?} ({} frame(s), order {:?}, MAC {} -> {}) was not delivered; expected: {}", a2s(&c.pkt.src), a2s(&c.pkt.dst), c.pkt.proto, c.dgram.len(), c.mode, n, order, c.x_ll, c.mac_dst, want.brief()),
+        )),
+        _ => Err(Fail::new(
+            stateful_key(&c, "ingress:independently-compressed-datagram-delivered-differently"),
+            format!("sent (mode {:?}) what should give: {}; got {} event(s), first: {}", c.mode, want.brief(), evs.len(), evs[0].brief()),
+        )),
+    }
+}
+
+// ------------------------------------------------------------------ adversarial frames: must never panic
+
+pub fn adv_case(src: &mut Src, ctx: &mut Ctx) -> Result<(), Fail> {
+    let mut c = craft(src, ctx, 400);
+    let mut now = 0i64;
+    let mut seq = 0u8;
+    // optionally run a complete, valid, fragmented datagram through first so that a reassembly
+    // slot with a grown buffer is left behind
+    if src.chance(2, 3) {
+        for p in c.payloads.clone() {
+            let f = frame(&c, seq, &p);
+            seq = seq.wrapping_add(1);
+            c.w.s[1].node.inject(f);
+        }
+        c.w.s[1].node.poll(ms(now), None);
+        now += 1;
+        ctx.label("adv:primed-with-valid-datagram");
+    }
+    let size = c.dgram.len();
+    let steps = 1 + src.draw(5);
+    for _ in 0..steps {
+        let kind = src.weighted(&[3, 3, 2, 2, 2, 2, 2, 1]);
+        let mut lp: Vec<u8> = match kind {
+            0 => {
+                // FRAG1 whose datagram_size is smaller than the decompressed headers / arbitrary
+                let sz = match src.weighted(&[3, 2, 1]) {
+                    0 => src.usize(40, 64),
+                    1 => src.usize(0, 48),
+                    _ => src.usize(0, 2047),
+                };
+                ctx.label("adv:frag1-small-datagram-size");
+                let mut f = frag1_header(sz, src.u16());
+                let take = src.usize(c.comp_hdr.min(c.comp.len()), c.comp.len()).min(110);
+                f.extend_from_slice(&c.comp[..take]);
+                f
+            }
+            1 => {
+                // truncate a valid frame at every octet
+                ctx.label("adv:truncated");
+                let p = c.payloads[src.draw(c.payloads.len() as u64 - 1) as usize].clone();
+                let at = src.draw(p.len() as u64) as usize;
+                p[..at].to_vec()
+            }
+            2 => {
+                ctx.label("adv:fragn-without-frag1");
+                let sz = *src.pick(&[size.min(2047), 40, 41, 48, 1280, 2047, 0]);
+                let off = *src.pick(&[0usize, 8, 40, 48, 2040, 1024]);
+                let mut f = fragn_header(sz, src.u16(), off);
+                let n = src.usize(0, 100);
+                f.extend(src.bytes(n));
+                f
+            }
+            3 => {
+                ctx.label("adv:overlapping-fragn");
+                let tag = 7;
+                let sz = src.usize(48, 400);
+                let off = 8 * src.usize(0, 40);
+                let mut f = fragn_header(sz, tag, off);
+                let n = src.usize(1, 100);
+                f.extend(src.bytes(n));
+                f
+            }
+            4 => {
+                ctx.label("adv:header-bit-flips");
+                let mut p = c.payloads[src.draw(c.payloads.len() as u64 - 1) as usize].clone();
+                for _ in 0..1 + src.draw(3) {
+                    if !p.is_empty() {
+                        let i = src.draw((p.len().min(24) - 1) as u64) as usize;
+                        p[i] ^= 1 << src.draw(7);
+                    }
+                }
+                p
+            }
+            5 => {
+                ctx.label("adv:random-iphc");
+                let k = src.usize(2, 60);
+                let mut p = src.bytes(k);
+                p[0] = 0x60 | (p[0] & 0x1f);
+                if src.bool() {
+                    let mut f = frag1_header(src.usize(40, 300), src.u16());
+                    f.extend(p);
+                    f
+                } else {
+                    p
+                }
+            }
+            6 => {
+                ctx.label("adv:nhc-ext-header-chain");
+                // IPHC with NH=1, link-local elided addresses, then extension headers with drawn lengths
+                let mut p = vec![0x7e, 0x33];
+                for _ in 0..1 + src.draw(2) {
+                    let eid = src.draw(7) as u8;
+                    let nhc = src.bool();
+                    p.push(0xe0 | (eid << 1) | nhc as u8);
+                    if !nhc {
+                        p.push(*src.pick(&[17u8, 58, 6, 0, 60, 59]));
+                    }
+                    let l = *src.pick(&[0usize, 1, 6, 14, 255, 100, 7]);
+                    p.push(l as u8);
+                    let have = src.usize(0, l.min(60));
+                    p.extend(src.bytes(have));
+                }
+                if src.bool() {
+                    p.push(0xf0 | src.draw(7) as u8);
+                    let k = src.usize(0, 12);
+                    p.extend(src.bytes(k));
+                }
+                if src.bool() {
+                    let mut f = frag1_header(src.usize(40, 200), src.u16());
+                    f.extend(p);
+                    f
+                } else {
+                    p
+                }
+            }
+            _ => {
+                ctx.label("adv:oversized-frag1-content");
+                // FRAG1 carrying more than datagram_size says
+                let mut f = frag1_header(src.usize(40, 60), src.u16());
+                f.extend_from_slice(&c.comp[..c.comp.len().min(110)]);
+                f
+            }
+        };
+        lp.truncate(116);
+        let mut f = match src.weighted(&[8, 1, 1]) {
+            0 => Mac::data(seq, c.pan, c.mac_dst, c.x_ll).encode(),
+            1 => Mac::data(seq, c.pan, c.mac_dst, Ll::None).encode(),
+            _ => {
+                let mut m = Mac::data(seq, c.pan, Ll::None, c.x_ll);
+                m.dst_pan = None;
+                m.src_pan = Some(c.pan);
+                m.pan_comp = false;
+                m.encode()
+            }
+        };
+        seq = seq.wrapping_add(1);
+        f.extend_from_slice(&lp);
+        f.truncate(127);
+        ctx.note(|| format!("inject {:02x?}", f));
+        c.w.s[1].node.inject(f);
+        if src.bool() {
+            now += *src.pick(&[0i64, 1, 1000, 61_000]);
+            c.w.s[1].node.poll(ms(now), None);
+        }
+    }
+    now += 1;
+    c.w.s[1].node.poll(ms(now), None);
+    let evs = read_events(&mut c.w.s[1].node, &c.socks);
+    ctx.count("adv_events", evs.len() as u64);
+    ctx.nontrivial = true;
+    ctx.digest.u64(steps);
+    ctx.digest.u64(size as u64);
+    ctx.digest.u64(seq as u64);
+    let _ = (&c.cfg, c.unc_hdr);
+    Ok(())
+}
